@@ -5,6 +5,11 @@ import YarlProofs.C07
 /-!
 # C17 — Port semantics: explicit vs default, zero vs absent   (audit layer)
 
+Continued in C17HeadlineMore.lean (theorems that need modules which import this file): explicit_port of
+constructor results for every accepted input, sentence 2 on URLs WITH a pre-filled cache / on constructor and
+`build` results / under the invariant `NetlocCanon`, and the general rejection of bad port texts (C17Ctor.lean,
+C11Ctor.lean, C03Netloc.lean).
+
 Property statement (verbatim):
 
 > explicit_port is the integer value of the port written in the URL, which must lie in 0-65535
@@ -176,6 +181,18 @@ theorem C17_headline_build_port_ascii (e : Env) (a : BuildArgs) (u : Url) (henc 
       | some p => some p.toNat) :=
   C17_headline_build_port e a u henc hauth hhost _ (BuildFix.lowerAny_ascii e a.scheme hasc)
 
+/-- build(port=…) "rejects bools, non-integers and out-of-range values", with the exact precedence `build` has: the
+    authority/port conflict check comes first (a `port` of the wrong type counts as truthy there), so a bool /
+    non-int port is TypeError without `authority=` and ValueError with it; an int out of 0–65535 is ValueError in
+    every case.  No guard.  (Cites `C17_build_port_rejects`, C17Build.lean.) -/
+theorem C17_headline_build_port_rejects (e : Env) (a : BuildArgs) :
+    (a.portKind ≠ 0 →
+      (a.authority = [] → build e a = .error .typeError) ∧
+      (a.authority ≠ [] → build e a = .error .valueError) ∧
+      (build e a = .error .typeError ∨ build e a = .error .valueError)) ∧
+    (∀ p, a.portKind = 0 → a.port = some p → (p < 0 ∨ 65535 < p) → build e a = .error .valueError) :=
+  C17_build_port_rejects e a
+
 /-! ## non-vacuity -/
 private def e0 : Env := { b := .py, o := Oracles.empty }
 private def u0 : Url :=
@@ -188,23 +205,52 @@ example : (ParseLemmas.hostPort (ParseLemmas.userTriple "h:99999".toStr).2.2).2 
 
 /-
 GAPS:
- 1. `explicit_port`, str(), host_port_subcomponent, with_port(set/clear) are proved for `Written` URLs only
-    (no pre-filled cache; authority in `make_netloc` form with UserOK/HostOK).  For constructor results with
-    the pre-filled cache the value IS the `split_netloc` port by construction (`encodeUrl`), agreement
-    with the lazy value is C09; "value written = value read" for an arbitrary accepted input authority
-    (e.g. "user@:80", "[v1.x]:80", "h:080", "h: 80 ") is only given by `MiscLemmas.splitNetloc_written_port`
-    (C17Build.lean) for hosts without '@' '[' ']'.
+ 1. CLOSED by C17_ctor_explicit_port, C17_cached_* and C17_netlocCanon_port_views (C17Ctor.lean) with
+    C03_encodeUrl_netlocCanon / C03_build_netlocCanon (C03Netloc.lean), see (all in C17HeadlineMore.lean)
+    C17_headline_ctor_explicit_port (+ _instances, _twin), C17_headline_ctor_is_default_port,
+    C17_headline_cached_port_views, C17_headline_invariant_port_views, C17_headline_ctor_port_views,
+    C17_headline_build_port_views.
+    Proved: (a) for EVERY input the auto-encoding constructor accepts (no guard), explicit_port of the result —
+    served from the pre-filled cache — is None when the input has no authority or no port text, and otherwise
+    Python `int()` of the port text of the INPUT authority (`CtorMods.portText`: the text after the ':' that follows
+    the host / the closing bracket), which lies in 0–65535; "user@:80", "[v1.x]:80", "h:080", "h: 80 ", "h:+8_0",
+    "h:-0", "h:" are computed instances; under the C09 guard `GoodAuthority` the same value is read from the stored
+    text once the cache is gone.  (b) explicit_port, str(), host_port_subcomponent, is_default_port() and
+    with_port(set/clear) satisfy the statements of this file on a URL WITH a cache that agrees with the stored text
+    and whose cache-less twin is `Written`; on every URL with `NetlocCanon` and an authority; and end to end on
+    `URL(s)` / `build(encoded=False)` results for input naming a supported ASCII host (`AuthInput` / `BuildNetOK`).
+    What remains open is item 7.
  2. "the integer value of the port written": the port text is read by Python `int()` — `pyIntAscii` models
     surrounding whitespace, sign, underscores, leading zeros ("h:+8_0" is port 80); no theorem relates it to
     "decimal digits only" (it is more liberal, as Python is).  Non-ASCII digits go through the `intU` oracle.
- 3. Rejection of bad ports: proved for `split_netloc` (new) and two constructor instances; the lifting
-    "encodeUrl / build(authority=…) fail with ValueError whenever the port text is bad" is not stated in
-    general (the constructor skips `split_netloc` when the authority has none of ':' '@' '[').
+ 3. CLOSED by C17_encodeUrl_rejects_bad_port, C17_build_rejects_bad_port, C17_ctor_fast_path_no_port
+    (C17Ctor.lean), see C17_headline_ctor_rejects_bad_port, C17_headline_build_rejects_bad_port,
+    C17_headline_fast_path_no_port, C17_headline_rejects_bad_port_instances (C17HeadlineMore.lean).
+    Proved: whenever `split_url` succeeds and the port text of the input authority is non-numeric or out of
+    0–65535, `URL(s)` is ValueError; an authority without ':' '@' '[' (the constructor's fast path) has no port
+    text, so nothing is skipped; `build(authority=…, encoded=False)` NEVER returns a URL for such an authority, and
+    its error is ValueError when `port=` is an int or None, a `query=` argument is convertible and the oracle can
+    answer the two requests `build` makes first — `scheme.lower()` (fix e21485a) and the NFKC screen of a non-ASCII
+    authority (fix c2c2803); ASCII scheme and ASCII authority need no oracle.  Without an oracle answer the model
+    stops with `oracleMiss` (model artefact): C17_headline_build_rejects_bad_port_fails_for_oracle_miss.  With
+    `encoded=True` nothing is checked at build time (known finding F-C19-encoded-str; instance in
+    C17_headline_rejects_bad_port_instances); that is item 6.
  4. "only when none is written": C17_headline_port_fallback is an equation for `port`; note that
-    build(port=default) DROPS the port (C17_headline_build_port), so `explicit_port` is None although a
-    port was supplied — consistent with the property only if "written" means "stored".
+    build(port = the default of the LOWER-CASED scheme; fix e21485a: `build(scheme="HTTP", port=80)` too) DROPS
+    the port (C17_headline_build_port; for the `authority=` route as well: C17_headline_build_port_views,
+    C17HeadlineMore.lean — a `build(encoded=False)` result never stores the default port of its scheme), so
+    `explicit_port` is None although a port was supplied — consistent with the property only if "written" means
+    "stored".  The constructor does NOT drop it (C17_headline_ctor_port_views: explicit_port reports a default
+    port, str() omits it).
  5. is_default_port for a scheme without default and an explicit port: `some p = none` is false —
     stated; for an absent port and a scheme WITHOUT default it returns True (absent), as the code does.
  6. with_port on authorities not in `Written` form (encoded=True oddities): only the rejection half.
+ 7. (new) Side conditions of the theorems that close 1(b).  `AuthInput` / `BuildNetOK` cover ASCII hosts of the
+    supported kinds (name / IPv4 text, IPv6 literal with optional zone id; not IPvFuture, not a bracketed non-IPv6
+    host, not an empty host); IDN hosts: `NetlocCanon` of the constructor result is C03_idn_netlocCanon_ctor
+    (C03Idn.lean) under the assumption `IdnaSaneAt` on the `idna` answers.  For other accepted inputs sentence 2 is
+    available only through C17_headline_cached_port_views, with `Written` checked on the concrete result and the
+    cache agreement from `GoodAuthority` (C11_ctor_good_authority / C09_good_authority_of — not a theorem for every
+    accepted input); 1(a) and C17_headline_ctor_is_default_port need no side condition.
 -/
 end Yarl
